@@ -320,7 +320,8 @@ def operand_after_separator(ctx, rule):
             continue
         err = error_exit_blocks(fn)
         for scc in fn.sccs():
-            mcs = [b for b in scc if fn.term(b)["k"] == "call" and callee_def(fn.term(b)) == PARSER + "match_and_consume"]
+            preds = progress.consuming_predicates(F)
+            mcs = [b for b in scc if fn.term(b)["k"] == "call" and (callee_def(fn.term(b)) == PARSER + "match_and_consume" or callee_def(fn.term(b)) in preds)]
             elems = [b for b in scc if fn.term(b)["k"] == "call" and b not in mcs and (
                 "indirect" in fn.term(b)["callee"] or (callee_def(fn.term(b)) or "").startswith((PARSER + "parse_", PARSER + "expect_")) or fn.term(b)["callee"].get("name") in ("call_mut", "call_once", "call"))]
             if not mcs or not elems:
@@ -333,6 +334,12 @@ def operand_after_separator(ctx, rule):
                     if sw and "Some" in sw[2] and "None" in sw[2] and mb in progress.deep_sources(fn, {"copy": {"l": sw[0]["l"], "p": []}}):
                         if sw[2]["None"] not in scc and sw[2]["Some"] in scc and drive is None:
                             drive = (mb, sb, sw[2]["Some"])
+                    # a bool-returning consuming helper: the loop goes on over the non-zero edge
+                    stt = fn.term(sb)
+                    if drive is None and callee_def(fn.term(mb)) in preds and stt["k"] == "switch" and mb in progress.deep_sources(fn, stt["on"]):
+                        zero = [tg for v, tg in stt["targets"] if v == "0"]
+                        if zero and zero[0] not in scc and stt["otherwise"] in scc:
+                            drive = (mb, sb, stt["otherwise"])
             if drive is None:
                 continue
             n += 1
